@@ -11,13 +11,15 @@ package sm9
 //@   heapnonnil
 //@   modifies everything
 
-// key unwrapping: the bn256 calls are not under contract (havocked); what callers rely on is the
-// length of the derived key
-//@ func (*EncryptPrivateKey).UnwrapKey property C13
-//@   requires priv != nil && 0 <= kLen && kLen <= 4294967000
+// key unwrapping: what callers rely on is the length of the derived key, and that nothing the caller
+// can see is written - in particular not the ciphertext the C1 slice points into (its spare capacity
+// holds C3 and C2, which the caller checks and decrypts afterwards) and not the uid; the only memory
+// written is the limbs of the freshly decoded point
+//@ func (*EncryptPrivateKey).UnwrapKey property C13,C10
+//@   requires priv != nil && 0 <= kLen && kLen <= 4294967000 && len(uid) < 1152921504606846976
 //@   ensures err == nil ==> len(key) == kLen
 //@   heapnonnil
-//@   modifies everything
+//@   modifies heap H_u64
 
 // ---- the secret scalar (C12): exactly the last 32-byte block read from the random source, accepted
 // only if 0 < k < n; a failing source gives an error
